@@ -51,6 +51,20 @@ enum Scenario {
     Cancel { kind: Kind, point: CancelPoint },
     /// the same AsyncClient scenario with `Cli::call` going through forward_message (all / even tags)
     WithApi(clients::Api, Box<Scenario>),
+    /// the connection fails while a (large) request is stalled mid-write, i.e. while the client's writer is
+    /// busy: `inflight` earlier calls await their responses; the failure leaves the client's writing side
+    /// open (malformed frame from a peer that stays up, or the peer half-closes); then the peer either lets
+    /// the stalled write through (`resume`) or never reads again
+    FailureStalled { kind: Kind, inflight: usize, fault: SFault, resume: bool },
+}
+
+#[derive(Clone, Copy, Debug, PartialEq, Eq)]
+enum SFault {
+    Malformed(Hostile),
+    /// end of stream towards the client; bytes the client writes are still accepted
+    HalfClose,
+    /// 47 bytes of a reply, then end of stream towards the client
+    CutReplyThenHalfClose,
 }
 
 #[derive(Clone, Copy, Debug, PartialEq, Eq)]
@@ -95,6 +109,20 @@ fn scenarios(tier: Tier) -> Vec<Scenario> {
     v.push(Scenario::Cancel { kind: Kind::Async, point: CancelPoint::AwaitingWriterLock });
     v.push(Scenario::Cancel { kind: Kind::Async, point: CancelPoint::MidWriteWithQueuedSibling });
     v.push(Scenario::Cancel { kind: Kind::Ws, point: CancelPoint::MidWriteWithQueuedSibling });
+    let mut stalled = Vec::new();
+    for kind in [Kind::Async, Kind::Ws] {
+        let mut sf = vec![SFault::HalfClose, SFault::CutReplyThenHalfClose];
+        for h in [Hostile::BadSpec, Hostile::LengthMismatch, Hostile::OverflowingSum, Hostile::Declared2p62, Hostile::TrailingGarbage] {
+            sf.push(SFault::Malformed(h));
+        }
+        for inflight in 0..=tier.pick(2, 4) {
+            for &fault in &sf {
+                for resume in [true, false] {
+                    stalled.push(Scenario::FailureStalled { kind, inflight, fault, resume });
+                }
+            }
+        }
+    }
     // the relay API of the AsyncClient on every AsyncClient scenario (appended: earlier indices stay put)
     let base: Vec<Scenario> = v.clone();
     for sc in base {
@@ -107,6 +135,7 @@ fn scenarios(tier: Tier) -> Vec<Scenario> {
             v.push(Scenario::WithApi(clients::Api::Mixed, Box::new(sc)));
         }
     }
+    v.extend(stalled);
     v
 }
 
@@ -217,6 +246,66 @@ async fn run_failure(kind: Kind, inflight: usize, timed: bool, fault: Fault) -> 
             Ok(Some(m)) => bad.push(("C06:subscriber-got-frame".into(), format!("{ctx}: subscriber received a frame (id {}) instead of end-of-stream", m.header.id))),
             Err(_) => bad.push(("C06:subscriber-no-eof".into(), format!("{ctx}: the notification subscriber never saw end-of-stream"))),
         }
+    }
+    (bad, flags)
+}
+
+
+async fn run_failure_stalled(kind: Kind, inflight: usize, fault: SFault, resume: bool) -> (Bad, u64) {
+    let mut bad = Bad::new();
+    let ctx = format!("{} inflight={inflight} fault={fault:?} while a 20 KB request is stalled mid-write; afterwards the peer {}", kind.name(), if resume { "lets the stalled write through" } else { "never reads again" });
+    let Conn { cli, mut peer, .. } = clients::connect(kind).await;
+    let calls: Vec<_> = (0..inflight as u64).map(|i| tokio::spawn(cli.call(100 + i, None, 0))).collect();
+    let reqs = peer.drain_requests().await.unwrap_or_default();
+    let ids = clients::tag_ids(&reqs);
+    if ids.len() != inflight {
+        return (vec![("C06:request-missing".into(), format!("{ctx}: {} of {inflight} requests arrived", ids.len()))], 0);
+    }
+    let stalls0 = peer.ctl().a_to_b.stalls();
+    peer.ctl().a_to_b.set_credit(Some(100));
+    let big = tokio::spawn(cli.call(7, None, 20_000));
+    memstream::settle().await;
+    let mut flags = 0;
+    if peer.ctl().a_to_b.stalls() > stalls0 && !big.is_finished() {
+        flags |= 64;
+    }
+    let id0 = ids.get(&100).copied().unwrap_or(1);
+    match fault {
+        SFault::Malformed(h) => peer.send_bytes(&hostile_bytes(h, id0)).await,
+        SFault::HalfClose => peer.ctl().b_to_a.close(),
+        SFault::CutReplyThenHalfClose => {
+            let whole = clients::reply(id0).to_bytes();
+            peer.send_bytes(&whole[..47]).await;
+            peer.ctl().b_to_a.close();
+        }
+    }
+    memstream::settle().await;
+    if resume {
+        peer.ctl().a_to_b.set_credit(None);
+        memstream::settle().await;
+    }
+    let class = format!("{}:{}", if resume { "stalled-writer-resumed" } else { "stalled-writer" }, kind.name());
+    for (i, h) in calls.into_iter().enumerate() {
+        let r = clients::join_call(h).await;
+        if !matches!(r, Res::Err(_)) {
+            bad.push((
+                format!("C06:{class}:inflight-call:{}", match r { Res::Hang => "hangs", _ => "returns-a-value" }),
+                format!("{ctx}: in-flight call #{i} returned {r:?} instead of an error"),
+            ));
+        }
+    }
+    let rb = clients::join_call(big).await;
+    if !matches!(rb, Res::Err(_)) {
+        bad.push((format!("C06:{class}:writing-call:{}", match rb { Res::Hang => "hangs", _ => "returns-a-value" }), format!("{ctx}: the call whose request was stalled returned {rb:?} instead of an error")));
+    }
+    let h = tokio::spawn(cli.call(9000, None, 0));
+    match clients::join_call(h).await {
+        Res::Err(_) | Res::Timeout => {}
+        Res::Hang => bad.push((format!("C06:{class}:later-call-hangs"), format!("{ctx}: a call issued after the connection failed never returned"))),
+        other => bad.push((format!("C06:{class}:later-call-succeeds"), format!("{ctx}: a call issued after the connection failed returned {other:?}"))),
+    }
+    if cli.pending() != 0 {
+        bad.push((format!("C06:{class}:pending-residue"), format!("{ctx}: {} pending entries remain", cli.pending())));
     }
     (bad, flags)
 }
@@ -454,6 +543,7 @@ async fn run_plain(sc: &Scenario) -> (Bad, u64) {
         Scenario::Timeout { kind, reply_before_ms, second_in_flight } => run_timeout(*kind, *reply_before_ms, *second_in_flight).await,
         Scenario::TwoTimeouts { kind } => run_two_timeouts(*kind).await,
         Scenario::Cancel { kind, point } => run_cancel(*kind, *point).await,
+        Scenario::FailureStalled { kind, inflight, fault, resume } => run_failure_stalled(*kind, *inflight, *fault, *resume).await,
     }
 }
 
@@ -473,7 +563,7 @@ pub fn run(tier: Tier) -> ! {
         |(rt, bad, flagc, n), i| {
             let (b, flags) = rt.block_on(run_one(&all[i as usize]));
             *n += 1;
-            for bit in 0..6 {
+            for bit in 0..7 {
                 if flags & (1 << bit) != 0 {
                     *flagc.entry(bit).or_insert(0) += 1;
                 }
@@ -498,16 +588,16 @@ pub fn run(tier: Tier) -> ! {
         ctx.violation(k, w, json!({"scenario": format!("{:?}", all[i]), "index": i, "tier": tier.name()}));
     }
     let g = |b: u64| flagc.get(&b).copied().unwrap_or(0);
-    if !ctx.has_violation() && (0..6).any(|b| g(b) == 0) {
+    if !ctx.has_violation() && (0..7).any(|b| g(b) == 0) {
         ctx.machinery("vacuous exploration: a scenario family never ran");
     }
     let coverage = json!({
         "evaluations": executed,
         "distinct_nontrivial": all.len(),
-        "rule": "for both tokio clients over an in-memory stream with a paused clock: every fault (peer closes before the calls / after reading them, reset, reply cut after 1/47/48/50/len-1 bytes, five kinds of malformed frame, answer one then close) x 0..3 (thorough 0..16) calls in flight x with/without per-call timeouts; a response arriving 4990/50/2 ms before a 5 s timeout and 2 ms after it, with and without another call in flight; two staggered timeouts; cancellation before start, while awaiting the response and while queued on the writer lock. A call that is still pending after a virtual hour hangs. Distinct = scenarios (each has a different script).",
+        "rule": "for both tokio clients over an in-memory stream with a paused clock: every fault (peer closes before the calls / after reading them, reset, reply cut after 1/47/48/50/len-1 bytes, five kinds of malformed frame, answer one then close) x 0..3 (thorough 0..16) calls in flight x with/without per-call timeouts; a response arriving 4990/50/2 ms before a 5 s timeout and 2 ms after it, with and without another call in flight; two staggered timeouts; cancellation before start, while awaiting the response and while queued on the writer lock; a failure that leaves the client's writing side open (five malformed frames, half-close, cut reply + half-close) injected while a 20 KB request is stalled mid-write, with 0..2 (thorough 0..4) earlier calls in flight, the peer afterwards letting the stalled write through or never reading again. A call that is still pending after a virtual hour hangs. Distinct = scenarios (each has a different script).",
         "samples": samples.take(),
         "exhaustive": executed == all.len() as u64,
-        "nonvacuity": {"failures_with_calls_in_flight": g(0), "subscriber_eof_checks": g(1), "timeout_scenarios": g(2), "late_responses_after_timeout": g(3), "staggered_timeouts": g(4), "cancellations": g(5)},
+        "nonvacuity": {"failures_with_calls_in_flight": g(0), "subscriber_eof_checks": g(1), "timeout_scenarios": g(2), "late_responses_after_timeout": g(3), "staggered_timeouts": g(4), "cancellations": g(5), "failures_while_a_request_was_really_stalled_mid_write": g(6)},
     });
     ctx.finish(
         "fault_enumeration",
